@@ -767,7 +767,104 @@ class SymRec:
 
 # --------------------------------------------------------------------------- the namespace
 
+class ZeroD:
+    """np.asarray(scalar): a 0-d array.  It can be indexed with (), ... or a 0-d boolean (`a[a < b]` has 0 or 1 elements),
+    assigned through the same keys (values are coerced to its dtype: an integer 0-d array truncates), and otherwise reads
+    like its value (arithmetic and comparisons give scalars, as numpy returns numpy scalars for 0-d operands)."""
+    ndim = 0
+    shape = ()
+    size = 1
+    __array_priority_sx__ = True
+
+    def __init__(self, v, dtype_tag):
+        self.dtype_tag = dtype_tag
+        self.v = SymArray([], dtype_tag)._coerce(v)
+
+    @property
+    def dtype(self):
+        return DType(self.dtype_tag)
+
+    def __sx_scalar__(self):
+        return self.v
+
+    def _key(self, k):
+        if k == () or k is Ellipsis:
+            return True
+        if isinstance(k, ZeroD):
+            k = k.v
+        if isinstance(k, (bool, SymBool)):
+            return bool(k)            # a symbolic mask splits the path
+        raise IndexError("too many indices for array: array is 0-dimensional")
+
+    def __getitem__(self, k):
+        if k == ():
+            return self.v
+        if k is Ellipsis:
+            return self
+        return SymArray([self.v] if self._key(k) else [], self.dtype_tag)
+
+    def __setitem__(self, k, val):
+        if not self._key(k):
+            return
+        if isinstance(val, SymArray):
+            if val.size != 1:
+                raise ValueError(f"NumPy boolean array indexing assignment cannot assign {val.size} input values to the 1 output values where the mask is true")
+            val = list(val._flat())[0]
+        if isinstance(val, ZeroD):
+            val = val.v
+        self.v = SymArray([], self.dtype_tag)._coerce(val)
+
+    def item(self):
+        return self.v
+
+    def copy(self):
+        return ZeroD(self.v, self.dtype_tag)
+
+    def astype(self, dt):
+        return ZeroD(self.v, _norm_dtype(dt))
+
+    def __len__(self):
+        raise TypeError("len() of unsized object")
+
+    def __iter__(self):
+        raise TypeError("iteration over a 0-d array")
+
+    def __bool__(self):
+        return bool(self.v)
+
+    def __float__(self):
+        return float(self.v)
+
+    def __repr__(self):
+        return f"ZeroD({self.v!r}, {self.dtype_tag})"
+
+
+def _zd(x):
+    return x.v if isinstance(x, ZeroD) else x
+
+
+def _zd_bin(name):
+    def f(self, o):
+        if isinstance(o, SymArray):
+            return NotImplemented
+        return getattr(lift(self.v) if not isinstance(self.v, (bool, SymBool)) else self.v, name)(_zd(o))
+    f.__name__ = name
+    return f
+
+
+for _n in ("__add__", "__radd__", "__sub__", "__rsub__", "__mul__", "__rmul__", "__truediv__", "__rtruediv__", "__pow__", "__rpow__", "__neg__", "__abs__"):
+    if _n in ("__neg__", "__abs__"):
+        setattr(ZeroD, _n, (lambda nm: lambda self: getattr(lift(self.v), nm)())(_n))
+    else:
+        setattr(ZeroD, _n, _zd_bin(_n))
+for _n, _op in (("__lt__", "lt"), ("__le__", "le"), ("__gt__", "gt"), ("__ge__", "ge"), ("__eq__", "eq"), ("__ne__", "ne")):
+    setattr(ZeroD, _n, (lambda op: lambda self, o: NotImplemented if isinstance(o, SymArray) else _cmp(self.v, _zd(o), op))(_op))
+ZeroD.__hash__ = None
+
+
 def asarray(x, dtype=None):
+    if isinstance(x, ZeroD):
+        x = x.v                       # inside the model a 0-d array is its value (numpy functions return scalars for it)
     tag = _norm_dtype(dtype) if dtype is not None and not isinstance(dtype, list) else None
     if hasattr(x, "__sx_plain__"):
         x = x.__sx_plain__()          # np.asarray(series): the values, positional, same buffer
@@ -872,12 +969,23 @@ class NP:
                     a = asarray(col, t) if col else SymArray([], t)
                 cols[n] = a
             return SymRec(cols)
+        if isinstance(x, ZeroD):
+            return ZeroD(x.v, _norm_dtype(dtype) or x.dtype_tag)
         a = asarray(x, dtype)
         if isinstance(a, SymArray) and a is x:
             a = a.copy()
+        if _is_scalar(a) and a is not None and not isinstance(a, Uninit):
+            return ZeroD(a, (_norm_dtype(dtype) if dtype is not None and not isinstance(dtype, list) else None) or _dtype_of_scalar(a))
         return a
 
-    asarray = staticmethod(asarray)
+    def asarray(self, x, dtype=None):
+        if isinstance(x, ZeroD):
+            return x if dtype is None or _norm_dtype(dtype) == x.dtype_tag else ZeroD(x.v, _norm_dtype(dtype))
+        a = asarray(x, dtype)
+        if _is_scalar(a) and a is not None and not isinstance(a, Uninit):
+            # what the analysed code gets from np.asarray(scalar) is a 0-d array (indexable with a 0-d mask, assignable)
+            return ZeroD(a, (_norm_dtype(dtype) if dtype is not None and not isinstance(dtype, list) else None) or _dtype_of_scalar(a))
+        return a
 
     def zeros(self, shape, dtype=None):
         return self.full(shape, Q(0), dtype)
@@ -910,7 +1018,7 @@ class NP:
         return a
 
     def _like(self, a, v, dtype, shape=None, order=None, subok=None):
-        tag = _norm_dtype(dtype) or (a.dtype_tag if isinstance(a, SymArray) else _dtype_of_scalar(a))
+        tag = _norm_dtype(dtype) or (a.dtype_tag if isinstance(a, (SymArray, ZeroD)) else _dtype_of_scalar(a))
         if shape is not None:
             # numpy >= 1.17: the dtype of `a`, another shape
             if hasattr(a, "__sx_array__"):
@@ -918,6 +1026,8 @@ class NP:
             if not isinstance(a, SymArray) and isinstance(a, (list, tuple)):
                 tag = _norm_dtype(dtype) or asarray(a).dtype_tag
             return self.full(shape, v, tag)
+        if isinstance(a, ZeroD):
+            return ZeroD(v, _norm_dtype(dtype) or a.dtype_tag)
         if not isinstance(a, SymArray):
             if hasattr(a, "__sx_array__"):
                 return self._like(a.__sx_array__(), v, dtype)
@@ -1112,6 +1222,33 @@ class NP:
     def sort(self, a, kind=None):
         a = asarray(a)
         return SymArray([a.d[int(j)] for j in self.argsort(a).d], a.dtype_tag)
+
+    def unique(self, ar, return_index=False, return_inverse=False, return_counts=False, axis=None, equal_nan=True):
+        """Sorted distinct values of the flattened array (+ index of the first occurrence of each, + the map from every
+        element to its distinct value, + counts).  Order and equality decisions split the path."""
+        a = asarray(ar)
+        if axis is not None:
+            raise Unsupported("np.unique(axis=)")
+        flat = list(a._flat())
+        order = [int(j) for j in self.argsort(SymArray(flat, a.dtype_tag)).d]      # stable: first occurrence first among equals
+        groups = []                                                                 # lists of original positions with equal values
+        for j in order:
+            if groups and bool(_cmp(flat[groups[-1][0]], flat[j], "eq")):
+                groups[-1].append(j)
+            else:
+                groups.append([j])
+        out = [SymArray([flat[g[0]] for g in groups], a.dtype_tag)]
+        if return_index:
+            out.append(SymArray([QI(min(g)) for g in groups], "i8"))
+        if return_inverse:
+            inv = [None] * len(flat)
+            for k, g in enumerate(groups):
+                for j in g:
+                    inv[j] = QI(k)
+            out.append(SymArray(inv, "i8"))
+        if return_counts:
+            out.append(SymArray([QI(len(g)) for g in groups], "i8"))
+        return out[0] if len(out) == 1 else tuple(out)
 
     def searchsorted(self, a, v, side="left", sorter=None):
         """Binary search of the array *as given* (numpy does not check that it is sorted); decisions split the path."""
